@@ -10,3 +10,17 @@ mod base;
 mod http;
 mod update;
 
+
+/// The HTTP helper types for the verification harness.
+#[cfg(feature = "verif-hooks")]
+pub mod verif_http {
+    pub use super::http::{
+        HttpClient, HttpResponse, LimitedDataRead, LimitedDataReadError,
+    };
+}
+
+/// The persisted record types for the verification harness (codec checks).
+#[cfg(feature = "verif-hooks")]
+pub mod verif_codec {
+    pub use super::archive::{RepositoryState, RrdpObjectMeta};
+}
